@@ -182,3 +182,104 @@ theorem fixPlan_status_is_summary (exec : Sequence → Sequence × Bool) (now : 
     all_goals simp_all
 
 end Coercion.Fix
+
+namespace Coercion.Fix
+open Coercion
+
+/-- `fixAction` returns a durably Completed action as it is -/
+theorem fixAction_completed (a : Action) (h : a.status = .completed) : fixAction a = a := by
+  simp [fixAction, h]
+
+/-- the repair of a sequence keeps every durably Completed action (same status, same attempts) -/
+theorem fixSeqFull_keeps_completed (now : Nat) (q : Sequence) (a : Action) (ha : a ∈ q.actions) (hc : a.status = .completed) :
+    a ∈ (fixSeqFull now q).actions := by
+  unfold fixSeqFull
+  by_cases hr : q.status = .running
+  · simp only [hr, ne_eq, not_true_eq_false, ite_false]
+    have hmap : a ∈ q.actions.map fixAction := List.mem_map.mpr ⟨a, ha, fixAction_completed a hc⟩
+    split
+    · exact List.mem_map.mpr ⟨a, ha, by simp [hc]⟩
+    · repeat' split
+      all_goals exact hmap
+  · simp [hr, ha]
+
+/-- an executor that never loses a Completed action of the sequence it is given -/
+def ExecKeepsCompleted (exec : Sequence → Sequence × Bool) : Prop :=
+  ∀ (q : Sequence) (a : Action), a ∈ q.actions → a.status = .completed → a ∈ (exec q).1.actions
+
+theorem resumeSeq_keeps_completed (exec : Sequence → Sequence × Bool) (hexec : ExecKeepsCompleted exec) (now : Nat) (q : Sequence) (a : Action)
+    (ha : a ∈ q.actions) (hc : a.status = .completed) : a ∈ (resumeSeq exec now q).actions := by
+  have h1 := fixSeqFull_keeps_completed now q a ha hc
+  unfold resumeSeq
+  split
+  · exact hexec _ a h1 hc
+  · exact h1
+
+theorem stopRunning_actions (q : Sequence) : (stopRunning q).actions = q.actions := by
+  unfold stopRunning; split <;> rfl
+
+/-- The block-level repair never resets durably finished work: every action that is Completed in the store is, unchanged,
+    an action of the corresponding sequence of the repaired block (position by position), whatever else the repair does —
+    provided `execSeq` itself keeps Completed actions (C09 at action level: `runAction` returns at once on a Completed action). -/
+theorem fixBlock_keeps_completed (exec : Sequence → Sequence × Bool) (hexec : ExecKeepsCompleted exec) (now : Nat) (b : Block)
+    (i : Nat) (q : Sequence) (hq : b.seqs[i]? = some q) (a : Action) (ha : a ∈ q.actions) (hc : a.status = .completed) :
+    ∃ q', (fixBlockFull exec now b).seqs[i]? = some q' ∧ a ∈ q'.actions := by
+  rcases fixBlock_seqs exec now b with h | h | h
+  · exact ⟨q, by rw [h]; exact hq, ha⟩
+  · refine ⟨resumeSeq exec now q, ?_, resumeSeq_keeps_completed exec hexec now q a ha hc⟩
+    rw [h]; simp [hq]
+  · refine ⟨stopRunning (resumeSeq exec now q), ?_, ?_⟩
+    · rw [h]; simp [hq]
+    · rw [stopRunning_actions]; exact resumeSeq_keeps_completed exec hexec now q a ha hc
+
+end Coercion.Fix
+
+namespace Coercion.Fix
+open Coercion
+
+/-- the loop over the blocks leaves every block either as stored or repaired, position by position -/
+theorem untilStopped_get (exec : Sequence → Sequence × Bool) (now : Nat) (bs : List Block) :
+    ∀ (i : Nat) (b : Block), bs[i]? = some b →
+      (fixBlocksUntilStopped exec now bs).1[i]? = some b ∨ (fixBlocksUntilStopped exec now bs).1[i]? = some (fixBlockFull exec now b) := by
+  induction bs with
+  | nil => intro i b h; simp at h
+  | cons c cs ih =>
+    intro i b h
+    unfold fixBlocksUntilStopped
+    by_cases hs : ((fixBlockFull exec now c).status == .stopped) = true
+    · simp only [hs, ite_true]
+      cases i with
+      | zero => simp at h; subst h; right; simp
+      | succ j => left; simpa using h
+    · simp only [hs, Bool.false_eq_true, ite_false]
+      cases i with
+      | zero => simp at h; subst h; right; simp
+      | succ j =>
+        have := ih j b (by simpa using h)
+        simpa using this
+
+/-- `fixPlan` leaves every block as stored or as `fixBlock` repairs it, position by position -/
+theorem fixPlan_blocks (exec : Sequence → Sequence × Bool) (now : Nat) (p : Plan) (i : Nat) (b : Block) (h : p.blocks[i]? = some b) :
+    (fixPlanFull exec now p).blocks[i]? = some b ∨ (fixPlanFull exec now p).blocks[i]? = some (fixBlockFull exec now b) := by
+  have hu := untilStopped_get exec now p.blocks i b h
+  have heq : (fixPlanFull exec now p).blocks = p.blocks ∨ (fixPlanFull exec now p).blocks = (fixBlocksUntilStopped exec now p.blocks).1 := by
+    unfold fixPlanFull
+    dsimp only
+    repeat' split
+    all_goals simp
+  rcases heq with e | e
+  · left; rw [e]; exact h
+  · rw [e]; exact hu
+
+/-- Plan-wide: the repair `Recovery` applies before it resumes never resets durably finished work. Every action that is
+    Completed in the store is, unchanged, an action of the same sequence of the same block of the repaired plan. -/
+theorem fixPlan_keeps_completed (exec : Sequence → Sequence × Bool) (hexec : ExecKeepsCompleted exec) (now : Nat) (p : Plan)
+    (i j : Nat) (b : Block) (q : Sequence) (hb : p.blocks[i]? = some b) (hq : b.seqs[j]? = some q)
+    (a : Action) (ha : a ∈ q.actions) (hc : a.status = .completed) :
+    ∃ b' q', (fixPlanFull exec now p).blocks[i]? = some b' ∧ b'.seqs[j]? = some q' ∧ a ∈ q'.actions := by
+  rcases fixPlan_blocks exec now p i b hb with h | h
+  · exact ⟨b, q, h, hq, ha⟩
+  · obtain ⟨q', hq', ha'⟩ := fixBlock_keeps_completed exec hexec now b j q hq a ha hc
+    exact ⟨_, q', h, hq', ha'⟩
+
+end Coercion.Fix
